@@ -26,6 +26,7 @@ UNITS = {
   'sokey': dict(wrapper='w_sokey.cpp', mode='seq', selftest=True, cut=['5localEv']),
   'us_i_i': US_UNIT({'vp_thr_i': ['a', 'b']}),
   'us_i_f': US_UNIT({'vp_thr_i': ['a'], 'vp_thr_f': ['b']}),
+  'usI_i_i': US_UNIT({'vp_thr_i': ['a', 'b']}, init_inline=True),
   'us_i_t': US_UNIT({'vp_thr_i': ['a'], 'vp_thr_t': ['b']}, unroll=2),
 }
 USD = {'ROUNDS': 1, 'NB': 2, 'NPRE': 2, 'PRE0': 2, 'PRE1': 3}
@@ -38,7 +39,10 @@ HARNESSES = [
   dict(name='uset_find_2t', unit='us_i_f', harness='h_uset.c', defines=dict(USD, TA='i', TB='f', NV=3, ND=1),
        scenarios=[{'KA0': 5, 'KB0': 5}, {'KA0': 5, 'KB0': 3}], cbmc=US_CBMC, timeout=900,
        desc='', bounds={}),
-  dict(name='uset_trav_2t', unit='us_i_t', harness='h_uset.c', defines=dict(USD, TA='i', TB='t', NV=3, ND=1, CHECK_ITER=1),
+  dict(name='uset_init_2t', unit='usI_i_i', harness='h_uset.c', defines=dict(ROUNDS=1, TA='i', TB='i'),
+       scenarios=[dict(NB=2, NPRE=1, PRE0=2, KA0=5, KB0=7, NV=3, ND=2), dict(NB=4, NPRE=2, PRE0=4, PRE1=1, KA0=7, KB0=5, NV=4, ND=2)], cbmc=US_CBMC, timeout=900,
+       desc='', bounds={}),
+  dict(name='uset_trav_2t', unit='us_i_t', harness='h_uset.c', defines=dict(USD, TA='i', TB='t', NV=3, ND=1),
        scenarios=[{'KA0': 5}], cbmc=US_CBMC, timeout=900,
        desc='', bounds={}),
 ]
